@@ -11,6 +11,7 @@ import (
 	"encoding/pem"
 	"fmt"
 	"math/big"
+	"strings"
 
 	"golang.org/x/crypto/ssh/testdata"
 	kf "verif/ref/sshkeyfmt"
@@ -28,6 +29,10 @@ type testKey struct {
 	crypto any  // *rsa.PublicKey, *dsa.PublicKey, *ecdsa.PublicKey, ed25519.PublicKey or nil
 	rep    bool // representative of its format (used for the fault enumeration / certificates)
 	signed bool // certificate with a genuine CA signature
+	// edge: the key has a field at an encoding boundary (fixed-width coordinate or key with
+	// leading zero bytes, mpint with the top bit set resp. clear at a byte boundary). Every
+	// edge key is also certified and used as a CA key inside a certificate.
+	edge bool
 }
 
 var (
@@ -63,6 +68,11 @@ func buildKeys(c *vf.Ctx) []*testKey {
 		keys = append(keys, k)
 		return k
 	}
+	addEdge := func(name string, ref *kf.Key, crypto any) *testKey {
+		k := add(name, ref, crypto, false)
+		k.edge = true
+		return k
+	}
 
 	// ---- RSA: the two real test keys, then synthetic moduli of boundary sizes (a public
 	// key blob is just two numbers; primality does not matter to the format)
@@ -85,14 +95,21 @@ func buildKeys(c *vf.Ctx) []*testKey {
 		if n.BitLen() != bits {
 			panic("rsa modulus construction")
 		}
-		add(fmt.Sprintf("rsa-synthetic-%d", bits), &kf.Key{Type: kf.RSA, E: big.NewInt(65537), N: n}, &rsa.PublicKey{E: 65537, N: n}, false)
+		k := add(fmt.Sprintf("rsa-synthetic-%d", bits), &kf.Key{Type: kf.RSA, E: big.NewInt(65537), N: n}, &rsa.PublicKey{E: 65537, N: n}, false)
+		// top bit of the leading byte set (00 pad byte) / clear (no pad) / one bit into the next byte
+		k.edge = bits == 1024 || bits == 1025 || bits == 2047 || bits == 2048 || bits == 2049
 	}
-	for _, e := range []int64{3, 5, 17, 257, 65535, 0xFFFFFF} {
+	// exponents on both sides of every mpint pad-byte boundary (0x7f|0x81, 0x7fff|0x8001, 0x7fffff|0x800001)
+	for _, e := range []int64{3, 5, 17, 0x7f, 0x81, 0xff, 257, 0x7fff, 0x8001, 65535, 0x7fffff, 0x800001, 0xFFFFFF} {
 		raw := c.Bytes("rsa-n-e", int(e), 256)
 		raw[0] |= 0x80
+		if e&2 != 0 {
+			raw[0] &= 0x7f // and the modulus without pad byte for half of them
+			raw[0] |= 0x40
+		}
 		raw[255] |= 1
 		n := new(big.Int).SetBytes(raw)
-		add(fmt.Sprintf("rsa-e-%d", e), &kf.Key{Type: kf.RSA, E: big.NewInt(e), N: n}, &rsa.PublicKey{E: int(e), N: n}, false)
+		addEdge(fmt.Sprintf("rsa-e-%#x", e), &kf.Key{Type: kf.RSA, E: big.NewInt(e), N: n}, &rsa.PublicKey{E: int(e), N: n})
 	}
 
 	// ---- DSA: the test key (OpenSSL "DSA PRIVATE KEY": SEQUENCE{version,p,q,g,y,x}) and Y at the group's ends
@@ -112,6 +129,25 @@ func buildKeys(c *vf.Ctx) []*testKey {
 	add("dsa-y-1", r, p, false)
 	r, p = mkdsa(new(big.Int).Sub(dk.P, big.NewInt(1)))
 	add("dsa-y-p-1", r, p, false)
+	// p (1024 bits) and q (160 bits) always have the top bit of their leading byte set, i.e. always
+	// carry the 00 pad byte; g and y range over the group, so give them every pad-boundary shape:
+	// bit lengths 8k-1 (no pad), 8k (pad), 8k+1 around 1016 and 1024, and one-byte values 7f|80|ff
+	dsaVals := map[string]*big.Int{"0x7f": big.NewInt(0x7f), "0x80": big.NewInt(0x80), "0xff": big.NewInt(0xff), "0x100": big.NewInt(0x100)}
+	for _, bl := range []int{1015, 1016, 1017, 1023} {
+		raw := c.Bytes("dsa-val", bl, (bl+7)/8)
+		top := uint(bl - 8*((bl+7)/8-1))
+		raw[0] = raw[0]&byte(1<<top-1) | byte(1<<(top-1))
+		v := new(big.Int).SetBytes(raw)
+		if v.BitLen() != bl || v.Cmp(dk.P) >= 0 {
+			panic("dsa value construction")
+		}
+		dsaVals[fmt.Sprintf("bitlen%d", bl)] = v
+	}
+	for _, name := range []string{"0x7f", "0x80", "0xff", "0x100", "bitlen1015", "bitlen1016", "bitlen1017", "bitlen1023"} {
+		v := dsaVals[name]
+		addEdge("dsa-y-"+name, &kf.Key{Type: kf.DSA, P: dk.P, Q: dk.Q, G: dk.G, Y: v}, &dsa.PublicKey{Parameters: dsa.Parameters{P: dk.P, Q: dk.Q, G: dk.G}, Y: v})
+		addEdge("dsa-g-"+name, &kf.Key{Type: kf.DSA, P: dk.P, Q: dk.Q, G: v, Y: dk.Y}, &dsa.PublicKey{Parameters: dsa.Parameters{P: dk.P, Q: dk.Q, G: v}, Y: dk.Y})
+	}
 
 	// ---- ECDSA: test keys, small multiples of the base point, points with a leading zero byte in X resp. Y
 	curves := []struct {
@@ -119,36 +155,50 @@ func buildKeys(c *vf.Ctx) []*testKey {
 		typ  string
 		test string
 	}{{elliptic.P256(), kf.ECDSA256, "ecdsap256"}, {elliptic.P384(), kf.ECDSA384, "ecdsap384"}, {elliptic.P521(), kf.ECDSA521, "ecdsap521"}}
-	var p256points [][]byte
+	// Coordinates are written with a fixed width (SEC1), so a coordinate whose leading byte(s)
+	// are zero is the boundary case. The scalars below are the smallest multiples k*G (k > 3) of
+	// the base point whose X only / Y only / X and Y / X by two bytes / Y by two bytes are
+	// short; found by walking G, 2G, 3G, ... once, and re-verified here on every run.
+	shortScalars := map[string][5]int64{ // xshort, yshort, bothshort, x2short, y2short
+		kf.ECDSA256: {379, 43, 49350, 40393, 2376},
+		kf.ECDSA384: {197, 176, 6394, 14971, 93150},
+		kf.ECDSA521: {5, 9, 4, 273, 73},
+	}
+	type p256pt struct {
+		class string
+		pt    []byte
+	}
+	var p256points []p256pt
 	for _, cv := range curves {
 		priv, err := x509.ParseECPrivateKey(mustPEM(cv.test).Bytes)
 		if err != nil {
 			panic(err)
 		}
-		mk := func(name string, x, y *big.Int, rep bool) {
+		mk := func(class string, x, y *big.Int, rep, edge bool) {
 			pt := pointBytes(cv.c, x, y)
-			add(name, &kf.Key{Type: cv.typ, Curve: curveName(cv.c), Point: pt}, &ecdsa.PublicKey{Curve: cv.c, X: x, Y: y}, rep)
+			k := add(cv.typ+"-"+class, &kf.Key{Type: cv.typ, Curve: curveName(cv.c), Point: pt}, &ecdsa.PublicKey{Curve: cv.c, X: x, Y: y}, rep)
+			k.edge = edge
 			if cv.typ == kf.ECDSA256 {
-				p256points = append(p256points, pt)
+				p256points = append(p256points, p256pt{class, pt})
 			}
 		}
-		mk(cv.typ+"-testdata", priv.X, priv.Y, true)
+		mk("testdata", priv.X, priv.Y, true, false)
 		size := (cv.c.Params().BitSize + 7) / 8
-		lim := new(big.Int).Lsh(big.NewInt(1), uint(8*(size-1)))
-		var haveX0, haveY0 bool
-		for k := int64(1); k <= 4000 && !(k > 3 && haveX0 && haveY0); k++ {
+		lim1 := new(big.Int).Lsh(big.NewInt(1), uint(8*(size-1)))
+		lim2 := new(big.Int).Lsh(big.NewInt(1), uint(8*(size-2)))
+		for k := int64(1); k <= 3; k++ {
 			x, y := cv.c.ScalarBaseMult(big.NewInt(k).Bytes())
-			x0, y0 := x.Cmp(lim) < 0, y.Cmp(lim) < 0
-			switch {
-			case k <= 3:
-				mk(fmt.Sprintf("%s-%dG", cv.typ, k), x, y, false)
-			case x0 && !haveX0:
-				haveX0 = true
-				mk(fmt.Sprintf("%s-%dG-x-leading-zero", cv.typ, k), x, y, false)
-			case y0 && !haveY0:
-				haveY0 = true
-				mk(fmt.Sprintf("%s-%dG-y-leading-zero", cv.typ, k), x, y, false)
+			mk(fmt.Sprintf("%dG", k), x, y, false, false)
+		}
+		for ci, class := range []string{"x-short", "y-short", "x-and-y-short", "x-two-bytes-short", "y-two-bytes-short"} {
+			k := shortScalars[cv.typ][ci]
+			x, y := cv.c.ScalarBaseMult(big.NewInt(k).Bytes())
+			xs, ys := x.Cmp(lim1) < 0, y.Cmp(lim1) < 0
+			ok := map[int]bool{0: xs && !ys, 1: ys && !xs, 2: xs && ys, 3: x.Cmp(lim2) < 0, 4: y.Cmp(lim2) < 0}[ci]
+			if !ok {
+				panic(fmt.Sprintf("%s: %dG is not in class %s", cv.typ, k, class))
 			}
+			mk(fmt.Sprintf("%dG-%s", k, class), x, y, false, true)
 		}
 	}
 	if other, err := x509.ParseECPrivateKey(mustPEM("ecdsa").Bytes); err == nil {
@@ -167,14 +217,52 @@ func buildKeys(c *vf.Ctx) []*testKey {
 	for i, v := range c.ValueClasses("ed25519", 32, c.V()) {
 		add(fmt.Sprintf("ed25519-class%d", i), &kf.Key{Type: kf.ED25519, Pub: v}, ed25519.PublicKey(v), false)
 	}
-
-	// ---- security-key formats (PROTOCOL.u2f): same key material plus an application string
-	apps := []string{"ssh:", "", "ssh:" + string(c.Bytes("app", 0, 90)), "ssh:ü,\" x"}
-	for ai, app := range apps {
-		for pi, pt := range p256points[:3] {
-			add(fmt.Sprintf("sk-ecdsa-app%d-pt%d", ai, pi), &kf.Key{Type: kf.SKECDSA, Curve: "nistp256", Point: pt, App: app}, nil, ai == 0 && pi == 0)
+	// fixed-width 32-byte keys with zero bytes at either end (a big-number round trip would lose them)
+	edShapes := map[string][]byte{}
+	for _, z := range []struct {
+		name        string
+		lead, trail int
+	}{{"lead-1-zero", 1, 0}, {"lead-2-zeros", 2, 0}, {"trail-1-zero", 0, 1}, {"lead-and-trail-zero", 1, 1}, {"lead-31-zeros", 31, 0}} {
+		v := c.Bytes("ed25519-z", z.lead*40+z.trail, 32)
+		for i := range v {
+			if v[i] == 0 {
+				v[i] = 1
+			}
 		}
+		for i := 0; i < z.lead; i++ {
+			v[i] = 0
+		}
+		for i := 0; i < z.trail; i++ {
+			v[31-i] = 0
+		}
+		edShapes[z.name] = v
+	}
+	edNames := []string{"lead-1-zero", "lead-2-zeros", "trail-1-zero", "lead-and-trail-zero", "lead-31-zeros"}
+	for _, n := range edNames {
+		addEdge("ed25519-"+n, &kf.Key{Type: kf.ED25519, Pub: edShapes[n]}, ed25519.PublicKey(edShapes[n]))
+	}
+
+	// ---- security-key formats (PROTOCOL.u2f): same key material plus an application string.
+	// Every point class of P-256 (incl. the short-coordinate ones) with the usual application,
+	// every application string with three ordinary points; same for sk-ed25519.
+	apps := []string{"ssh:", "", "ssh:" + string(c.Bytes("app", 0, 90)), "ssh:ü,\" x"}
+	for pi, pt := range p256points {
+		short := strings.Contains(pt.class, "short")
+		k := add("sk-ecdsa-"+pt.class, &kf.Key{Type: kf.SKECDSA, Curve: "nistp256", Point: pt.pt, App: apps[0]}, nil, pi == 0)
+		k.edge = short
+	}
+	for ai, app := range apps[1:] {
+		for _, pt := range p256points[:3] {
+			add(fmt.Sprintf("sk-ecdsa-app%d-%s", ai+1, pt.class), &kf.Key{Type: kf.SKECDSA, Curve: "nistp256", Point: pt.pt, App: app}, nil, false)
+		}
+		// and a short-coordinate point with an unusual application
+		add(fmt.Sprintf("sk-ecdsa-app%d-%s", ai+1, p256points[4+ai].class), &kf.Key{Type: kf.SKECDSA, Curve: "nistp256", Point: p256points[4+ai].pt, App: app}, nil, false)
+	}
+	for ai, app := range apps {
 		add(fmt.Sprintf("sk-ed25519-app%d", ai), &kf.Key{Type: kf.SKED25519, Pub: []byte(real), App: app}, nil, ai == 0)
+	}
+	for _, n := range edNames {
+		addEdge("sk-ed25519-"+n, &kf.Key{Type: kf.SKED25519, Pub: edShapes[n], App: apps[0]}, nil)
 	}
 	return keys
 }
@@ -262,6 +350,37 @@ func buildCerts(c *vf.Ctx, keys []*testKey) []*testKey {
 				out = append(out, &testKey{name: fmt.Sprintf("cert[%s]/ca=%s/%s", k.name, a.format, v.name), ref: &ref, blob: kf.Encode(&ref), rep: ci == 0 && vi == 0, signed: ci == 0})
 			}
 		}
+	}
+	// every edge key (leading-zero coordinate or key bytes, mpint at a pad-byte boundary)
+	// certified by the Ed25519 CA (genuine signature), and used as the CA key of a certificate
+	full := certVariants(c)[0]
+	caFormat := func(t string) string {
+		if t == kf.RSA {
+			return "rsa-sha2-512"
+		}
+		return t
+	}
+	for _, k := range keys {
+		if !k.edge {
+			continue
+		}
+		cert := full.c
+		cert.SignatureKey = caKey.blob
+		ref := *k.ref
+		ref.Type = kf.CertType(k.ref.Type)
+		ref.Cert = &cert
+		sig := ed25519.Sign(caPriv, kf.SignedBytes(&ref))
+		cert.Signature = append(sshwire.EncodeString([]byte(kf.ED25519)), sshwire.EncodeString(sig)...)
+		out = append(out, &testKey{name: fmt.Sprintf("cert[%s]/ca=%s/full", k.name, kf.ED25519), ref: &ref, blob: kf.Encode(&ref), signed: true, edge: true})
+
+		cert2 := full.c
+		cert2.SignatureKey = k.blob
+		cert2.Signature = signature(c, caFormat(k.ref.Type))
+		sub := byType[kf.ED25519]
+		ref2 := *sub.ref
+		ref2.Type = kf.CertType(sub.ref.Type)
+		ref2.Cert = &cert2
+		out = append(out, &testKey{name: fmt.Sprintf("cert[%s]/ca-key=%s/full", sub.name, k.name), ref: &ref2, blob: kf.Encode(&ref2), edge: true})
 	}
 	return out
 }
